@@ -45,6 +45,9 @@ def corpus():
         '#{"ops":[[["ll"],"append",[[1,2]]],[["st"],"update",[[3,4,5]]],[["dl","a"],"extend",[[1,2]]],[["dc"],"dsetitem",[5,5]]],"failk":[1,"ValueError"]}',
         # a rejected assignment to a never-read trait with a dynamic default and a handler must not materialise the default
         '#{"scalar":"validator","steps":[["de",4,"set"],["i",9,"set"],["de",null,"get"]],"at":0,"k":0,"exc":"ValueError"}',
+        # a failing quiet assignment must not leave the object muted
+        '#{"scalar":"validator","steps":[["e",4,"setq"],["e",6,"set"],["i",3,"set"]],"at":0,"k":0,"exc":"ValueError"}',
+        '#{"scalar":"validator","steps":[["n",-2,"qset"],["n",-4,"set"],["s","q","trait_set"]],"at":0,"k":0,"exc":"RuntimeError"}',
         '#{"scalar":"validator","steps":[["dn",-3,"trait_set"],["i",2,"set"],["dn",null,"get"],["dn",5,"set"]],"at":0,"k":0,"exc":"TraitError"}',
     ]
 
